@@ -44,7 +44,7 @@ from typing import Any, Callable
 from ..engine.normalize import ANCHOR_NAMES, _bind, _helper_target, _simple_helper, _suite_lists, inline_helpers
 from ..engine.report import AnalysisError
 from ..engine.resolver import FuncInfo, FuncNode, Program
-from ..engine.sympath import Path, SymUnsupported, _Subst, sym_block, sym_paths
+from ..engine.sympath import Path, SymUnsupported, _Subst, follower, sym_block, sym_paths
 from ..engine.util import canon, u
 
 FIELDS = {"inclusion_lower": "il", "exclusion_lower": "el", "exclusion_upper": "eu", "inclusion_upper": "iu"}
@@ -96,6 +96,26 @@ def prepared(prog: Program, fn: FuncInfo) -> FuncNode:
         node = inline_straightline(prog, fn, inline_helpers(prog, fn, node=node))
     fold_list_loops(node)
     return node
+
+
+def path_follower(prog: Program, fn: FuncInfo, stop: tuple[str, ...] = ()) -> Any:
+    """`follow` callback for engine/sympath: private helpers (methods, module functions) called on a path
+    are executed in line, on copies in which list-accumulation loops are read as comprehensions
+    (fold_list_loops) — helpers of any shape: several returns, tuple results, helpers calling helpers.
+    Anchored names and the names in `stop` stay opaque calls."""
+    base = follower(prog, fn, stop)
+    cache: dict[int, Any] = {}
+
+    def follow(call: ast.Call) -> Any:
+        t = base(call)
+        if t is None:
+            return None
+        if id(t) not in cache:
+            c = copy.deepcopy(t)
+            fold_list_loops(c)
+            cache[id(t)] = c
+        return cache[id(t)]
+    return follow
 
 
 def fold_list_loops(node: FuncNode) -> None:
@@ -412,7 +432,7 @@ def _stored(node: ast.AST) -> set[str]:
     return {n.id for n in ast.walk(node) if isinstance(n, ast.Name) and isinstance(n.ctx, (ast.Store, ast.Del))}
 
 
-def env_before(fn: FuncNode, stmt: ast.stmt) -> dict[str, ast.AST] | None:
+def env_before(fn: FuncNode, stmt: ast.stmt, follow: Any = None) -> dict[str, ast.AST] | None:
     """Environment (local -> defining expression) on entry to the top-level statement `stmt`; None when
     `stmt` is not top-level or the paths reaching it disagree on a binding."""
     body = strip_doc(fn.body)
@@ -420,7 +440,7 @@ def env_before(fn: FuncNode, stmt: ast.stmt) -> dict[str, ast.AST] | None:
     if idx is None:
         return None
     try:
-        nexts = [p for p, st in sym_block(body[:idx]) if st == "next"]
+        nexts = [p for p, st in sym_block(body[:idx], follow=follow) if st == "next"]
     except SymUnsupported:
         return None
     if not nexts:
@@ -432,18 +452,18 @@ def env_before(fn: FuncNode, stmt: ast.stmt) -> dict[str, ast.AST] | None:
     return first
 
 
-def loop_passes(fn: FuncNode, loop: ast.For, symbolic: tuple[str, ...] = ()
+def loop_passes(fn: FuncNode, loop: ast.For, symbolic: tuple[str, ...] = (), follow: Any = None
                 ) -> tuple[ast.AST, dict[str, ast.AST], list[Path], list[Path]] | None:
     """(resolved iterable, environment on entry without the names the loop binds, complete passes of
     the body, all passes incl. those ending in `continue` or raising); None if the loop is not a plain
     top-level `for` whose body neither breaks nor returns."""
-    env = env_before(fn, loop)
+    env = env_before(fn, loop, follow)
     if env is None or loop.orelse:
         return None
     bound = _stored(loop)
     env_in = {k: v for k, v in env.items() if k not in bound and k not in symbolic}   # `symbolic`: mutated in place
     try:
-        res = sym_block(loop.body, env_in)
+        res = sym_block(loop.body, env_in, follow=follow)
     except SymUnsupported:
         return None
     if any(st not in ("next", "continue", "raise") for _p, st in res):
@@ -454,7 +474,7 @@ def loop_passes(fn: FuncNode, loop: ast.For, symbolic: tuple[str, ...] = ()
 Guard = tuple[ast.AST, bool]     # (condition atom with locals substituted, its outcome)
 
 
-def loop_sums(fn: FuncNode, loop: ast.For) -> dict[str, tuple[ast.AST, list[Guard]]]:
+def loop_sums(fn: FuncNode, loop: ast.For, follow: Any = None) -> dict[str, tuple[ast.AST, list[Guard]]]:
     """accumulator -> (its value after the loop as `init + sum(inc for T in IT)` (init dropped when 0),
     the conditions under which a pass of the body adds the increment).
 
@@ -462,7 +482,7 @@ def loop_sums(fn: FuncNode, loop: ast.For) -> dict[str, tuple[ast.AST, list[Guar
     re-binds to `itself + inc` with one and the same `inc`; the passes that leave it alone (a
     `continue`, an untaken `if`) are exactly those excluded by the returned guards, which the caller
     must judge (an unguarded sum has none)."""
-    lp = loop_passes(fn, loop)
+    lp = loop_passes(fn, loop, follow=follow)
     if lp is None:
         return {}
     it, env, _full, passes = lp
@@ -502,7 +522,7 @@ def loop_sums(fn: FuncNode, loop: ast.For) -> dict[str, tuple[ast.AST, list[Guar
     return out
 
 
-def fold_loops(fn: FuncNode, e: ast.AST, guards: list[Guard] | None = None) -> ast.AST:
+def fold_loops(fn: FuncNode, e: ast.AST, guards: list[Guard] | None = None, follow: Any = None) -> ast.AST:
     """Replace the `<acc@loopN>` placeholders in `e` by the sums the loops at line N compute; the
     conditions under which the increments are added are appended to `guards` (when no list is given a
     guarded accumulator is not folded)."""
@@ -515,7 +535,7 @@ def fold_loops(fn: FuncNode, e: ast.AST, guards: list[Guard] | None = None) -> a
             if m and int(m.group(2)) in loops:
                 ln = int(m.group(2))
                 if ln not in cache:
-                    cache[ln] = loop_sums(fn, loops[ln])
+                    cache[ln] = loop_sums(fn, loops[ln], follow)
                 hit = cache[ln].get(m.group(1))
                 if hit is not None and (guards is not None or not hit[1]):
                     if guards is not None:
@@ -525,9 +545,9 @@ def fold_loops(fn: FuncNode, e: ast.AST, guards: list[Guard] | None = None) -> a
     return T().visit(copy.deepcopy(e))
 
 
-def returns_of(fn: FuncNode, qual: str) -> list[Path]:
+def returns_of(fn: FuncNode, qual: str, follow: Any = None) -> list[Path]:
     try:
-        return [p for p in sym_paths(fn) if p.exit in ("return", "fall")]
+        return [p for p in sym_paths(fn, follow=follow) if p.exit in ("return", "fall")]
     except SymUnsupported as exc:
         raise AnalysisError(f"{qual}: {exc}") from None
 
@@ -694,6 +714,14 @@ def availability(prog: Program, fn: FuncInfo, node: FuncNode, e: ast.AST, depth:
         h = _helper_target(prog, fn, e, nested)
         if h is not None and h is not node and not isinstance(h, ast.AsyncFunctionDef):
             binds = _bind(h, e)
+            loop = search_loop(h)
+            if binds is not None and loop is not None:
+                # `for T in IT: if C: return True` / `return False`  ==  any(C for T in IT)   (dually all)
+                quant, target, it, cond = loop
+                gen = ast.GeneratorExp(elt=cond if quant == "any" else ast.UnaryOp(op=ast.Not(), operand=cond),
+                                       generators=[ast.comprehension(target=target, iter=it, ifs=[], is_async=0)])
+                k = availability(prog, fn, node, subst(ast.Call(func=name("any"), args=[gen], keywords=[]), binds), depth - 1)
+                return k if quant == "any" else flip[k]
             try:
                 rets = [p for p in sym_paths(h) if p.exit == "return" and p.ret is not None]
             except SymUnsupported:
@@ -701,3 +729,23 @@ def availability(prog: Program, fn: FuncInfo, node: FuncNode, e: ast.AST, depth:
             if binds is not None and len(rets) == 1:
                 return availability(prog, fn, node, subst(rets[0].ret, binds), depth - 1)
     return None
+
+
+def search_loop(h: FuncNode) -> tuple[str, ast.AST, ast.AST, ast.AST] | None:
+    """('any' | 'all', target, iterable, condition) when the body of `h` is the search idiom
+    `for T in IT: if C: return <b>` followed by `return <not b>` (b a boolean literal): `h(...)` is
+    any(C …) for b == True and not any(C …) for b == False."""
+    body = strip_doc(h.body)
+    if len(body) != 2 or not isinstance(body[0], ast.For) or body[0].orelse or not isinstance(body[1], ast.Return):
+        return None
+    loop, last = body
+    if len(loop.body) != 1 or not isinstance(loop.body[0], ast.If) or loop.body[0].orelse:
+        return None
+    test = loop.body[0]
+    if len(test.body) != 1 or not isinstance(test.body[0], ast.Return):
+        return None
+    hit, miss = test.body[0].value, last.value
+    if not (isinstance(hit, ast.Constant) and isinstance(miss, ast.Constant) and isinstance(hit.value, bool)
+            and isinstance(miss.value, bool) and hit.value != miss.value):
+        return None
+    return ("any" if hit.value else "all"), copy.deepcopy(loop.target), copy.deepcopy(loop.iter), copy.deepcopy(test.test)
